@@ -74,6 +74,15 @@ func obFetchFirst(c *rules.Ctx, id string) {
 	c.NoReadBeforeFetch(ob, c.Fn(ob, relInterp, "RunProgram"), ir.Fetch, leaf)
 }
 
+func obQueryComplete(c *rules.Ctx, id string) {
+	ob := c.R.Ob(id, "origin/query-complete", "the query sent to the store keeps, per account, the whole pending list of assets (or extends the entry by append)", 1)
+	ir := c.IRoles(ob)
+	if ir == nil {
+		return
+	}
+	c.FilteredQueryComplete(ob, ir.Fetch, c.P.Field(relInterp, "programState", "CurrentBalanceQuery"))
+}
+
 func obReaderUnaltered(c *rules.Ctx, id string, r *rules.Roles) {
 	ob := c.R.Ob(id, "origin/reader-unaltered", "the balance reader that bounds a draw returns cached balance minus pending draws and nothing else (no clamp before the overdraft grant is added)", 1)
 	c.ReaderReturnsUnaltered(ob, r)
